@@ -137,6 +137,10 @@ func VerifC19_UniqueIPs() {
 	ctx := verifNewContext()
 	m := ctx.metrics
 	m.geoipdb = &geoip.Geoip{}
+	geo := !verifapi.Bool("geoip disabled") // -disable-geoip: the unique-address figures are kept all the same
+	if !geo {
+		m.geoipdb = nil
+	}
 	for pt := range map[string]bool{"standalone": true, "webext": true} {
 		m.countryStats.proxies[pt] = make(map[string]bool)
 	}
@@ -163,5 +167,7 @@ func VerifC19_UniqueIPs() {
 	verifapi.Assert(len(m.countryStats.proxies["standalone"]) == cnt(0), "each proxy address is counted once per proxy type")
 	verifapi.Assert(len(m.countryStats.proxies["webext"]) == cnt(1), "each proxy address is counted once per proxy type")
 	verifapi.Assert(len(m.countryStats.unknown) == cnt(2), "addresses of unrecognised proxy types are counted once under unknown")
-	verifapi.Assert(m.countryStats.counts["XX"] == cnt(0)+cnt(1)+cnt(2), "the per-country figure counts each (type, address) pair once")
+	if geo {
+		verifapi.Assert(m.countryStats.counts["XX"] == cnt(0)+cnt(1)+cnt(2), "the per-country figure counts each (type, address) pair once")
+	}
 }
